@@ -69,6 +69,19 @@ META["C02"] = {
     "level_note": "trusts the recording tracer (StatesBefore, CalledStates, ActiveStates at TransitionEnd) and Machine.Schema() as the parsed schema",
 }
 
+META["C03"] = {
+    "budget": {"quick": 25, "thorough": 600},
+    "rule": "one run = generated schema + veto plan over every negotiation handler class + one idle caller issuing Add/Remove/Set/Toggle/CanAdd/CanRemove with and without args, observers scheduled while the transition is parked inside handlers; variants drawn per run: plain, no handlers, backing-off machine (real handler stall beyond timeout+deadline on the fake clock), queue limit (burst of mutations from a handler), disposed machine; non-trivial = more than one transition; distinct = distinct plans",
+    "components": {"real": MACHINE_REAL, "stub": []},
+    "assumptions": [
+        "preconditions of the statement are enforced by the plan: one caller, idle machine, handlers issue no mutations (except the queue-limit burst), CanAdd twin only for non-Multi states and when no veto is planned for the calls the twin would make",
+        "Executed post-conditions are evaluated at the end of the mutation's own transition (a following auto transition is a transition of its own)",
+    ],
+    "probes": ["observer-during-negotiation", "observer-during-final", "backoff-window-hit", "queue-limit-hit", "check-then-mutate", "disposed-calls"],
+    "level_text": "seeded search over schemas, histories, veto assignments and observer interleavings; checks Canceled => nothing moved, Executed => the documented post-condition, no half-applied view, CanAdd/CanRemove side-effect free and truthful, early-return paths Canceled without effect",
+    "level_note": "trusts testing/synctest and the recording tracer; observers run only at scheduling points (handler bodies, queue hooks)",
+}
+
 NOT_YET = "check not built yet in this session (planned, see DESIGN.md section 5)"
 NOT_APPLICABLE = {
     "C19": "no schedule, clock, fault or multi-party behaviour: a static well-formedness scan of schema literals plus an exhaustive breadth-first enumeration of reachable active sets, i.e. bounded model checking, not deterministic simulation (DESIGN.md section 6)",
